@@ -465,3 +465,11 @@ SUBS = [
         quick=1500, thorough=20000),
     Sub("fuzz-atheris", check_atheris_campaign, enum=enum_atheris, enum_shards=lambda t: 8),
 ]
+
+
+# objects with a history (reads that may fill caches, in-place writes): observables equal those of a fresh object
+from pbt import aged as _aged  # noqa: E402
+
+SUBS.append(_aged.sub("C09", quick=60))
+ASSUMPTIONS = list(ASSUMPTIONS) + ["aged sub-property: library results are a function of the public primary state "
+                                   "(corners, n, names, units, bc, subregions, array, validity, labels, mapping, unit)"]
